@@ -313,11 +313,12 @@ class Stack:
             return 'dead:' + str(self.job.exc)
         return 'alive'
 
-    def tables_empty(self):
+    def tables_empty(self, sessions_only=False):
         d = self.ecu.j1939_dll
         n = len(d._rcv_buffer) + len(d._snd_buffer)
         if self.dllname != 'j1939-21':
-            n += len(getattr(d, '_multi_pg_snd_buffer', {}))
+            if not sessions_only:
+                n += len(getattr(d, '_multi_pg_snd_buffer', {}))
             # an idle FD stack has its whole originator capacity (C10_idle_stack_has_full_capacity): a flag still taken
             # with no session left is a leaked session number
             for nm in ('_J1939_22__rts_cts_session_list', '_J1939_22__bam_session_list'):
